@@ -83,7 +83,76 @@ def load_registry(prop=None):
         # of the properties it DEPENDS on (C03: refinement clauses "proved postconditions ==> step contract")
         if hasattr(m, "finalize"):
             m.finalize(R, prop)
+    if prop is not None:
+        inherit_overrides(R, wanted)
     return R
+
+
+def inherit_overrides(R, props):
+    """Behavioural subtyping: the contract of a method binds every OVERRIDE of that method in a repository subclass that has no contract of
+    its own -- for the variants of the setup whose `self` is an instance of that subclass.  (A change that re-implements `Node.is_tip` as
+    `Tree.Node.is_tip` is then verified against the clauses of `Node.is_tip`, under the key of the override.)  Contracts of the checked
+    property and of the properties it depends on only; nested functions and setters are not looked at."""
+    import copy as _copy
+    import inspect
+
+    from pyvc.interp import is_repo_class
+    from pyvc.values import Obj
+    from pyvc.verify import Setup, resolve_py
+
+    def subclasses(c, acc=None):
+        acc = [] if acc is None else acc
+        for s_ in c.__subclasses__():
+            if s_ not in acc:
+                acc.append(s_)
+                subclasses(s_, acc)
+        return acc
+
+    for key, alts in list(R.alts.items()):
+        qual = key.split(":")[-1]
+        if "<locals>" in qual or "@" in qual or "." not in qual or not any(c.prop in props and not c.trusted for c in alts):
+            continue
+        try:
+            _, _, owner = resolve_py(key)
+        except Exception:
+            continue
+        if not isinstance(owner, type):
+            continue
+        name = qual.rsplit(".", 1)[1]
+        if name.startswith("__") and name.endswith("__"):
+            continue
+        for sub in subclasses(owner):
+            f = sub.__dict__.get(name)
+            f = getattr(f, "fget", f)
+            if not inspect.isfunction(f) or not is_repo_class(sub):
+                continue
+            k2 = extract.func_key(f)
+            if k2 is None or k2 in R.alts or k2 == key:
+                continue
+            for c in alts:
+                if c.prop not in props or c.trusted or c.options.get("refines"):
+                    continue
+                keep = {}
+                for vname, su in (c.variants or {"": c.setup}).items():
+                    if su is None:
+                        continue
+                    try:
+                        probe = su(Setup(Verifier(R, c.prop)))
+                        me = probe.get("self") if isinstance(probe, dict) else None
+                    except BaseException:  # the probe is advisory: a setup that cannot be run outside a proof inherits nothing
+                        continue
+                    if isinstance(me, Obj) and isinstance(me.cls, type) and issubclass(me.cls, sub):
+                        keep[vname] = su
+                if not keep:
+                    continue
+                c2 = _copy.copy(c)
+                c2.key = k2
+                c2.options = dict(c.options, inherited_from=key)
+                c2.variants = keep if c.variants else None
+                c2.setup = None if c.variants else keep[""]
+                R.alts.setdefault(k2, []).append(c2)
+                if k2 not in R.keys():
+                    dict.__setitem__(R, k2, c2)
 
 
 def load_known():
